@@ -405,7 +405,7 @@ func TestVerif_C08_EntryPoints(t *testing.T) {
 // (scalar multiplication, affine conversion, scalar-field decoding and inversion, comparisons) must be trace-identical for all secrets.
 func TestVerif_C08_EntryInternals(t *testing.T) {
 	rec := stats.Get("C08", "entry-internals")
-	rec.Rule("instrumented build; events of sites in sm2/sm2.go itself (the math/big glue that forms r and s, not judged) are excluded, everything below it is traced: rapid draws a valid private key (all classes incl. short and carry-chain encodings are padded to 32 bytes for DerivePublic/GenerateKey), a digest and a nonce that is accepted at the first draw; SignHashed(k,d,e), GenerateKey(stream=d) and DerivePublic(d) are executed and grouped by entry point (SignHashed additionally by the byte length of r+k, a decision of the unjudged glue that determines whether the comparison routine is called at all). Oracle: block-sequence hash+count and (site,index)-sequence hash+count are identical within a group for all (d, e, k). Non-trivial: every case after the first of its group; distinct by (entry, d, e, k).")
+	rec.Rule("instrumented build; events of sites in sm2/sm2.go itself (the math/big glue that forms r and s, not judged) are excluded, everything below it is traced: rapid draws a valid private key (all classes incl. short and carry-chain encodings are padded to 32 bytes for DerivePublic/GenerateKey), a digest and a nonce that is accepted at the first draw; SignHashed(k,d,e), GenerateKey(stream=d) and DerivePublic(d) are executed, each optionally preceded by an untraced call of the same entry point with the SAME key or with another key, and grouped by entry point (SignHashed additionally by the byte length of r+k, a decision of the unjudged glue that determines whether the comparison routine is called at all). Oracle: block-sequence hash+count and (site,index)-sequence hash+count are identical within a group for all (d, e, k). Non-trivial: every case after the first of its group; distinct by (entry, d, e, k).")
 	t.Cleanup(stats.FlushAll)
 	if !c08LoadSites(t) {
 		rec.Skipped("ctrace_sites.json not found: nothing judged")
@@ -451,7 +451,25 @@ func TestVerif_C08_EntryInternals(t *testing.T) {
 			group += fmt.Sprintf("|len(r+k)=%d", len(new(big.Int).Add(rr, kv).Bytes()))
 		}
 		_ = r0
+		// history: the call before the traced one used the SAME key, or another key, or there was none — the trace of the traced call
+		// must not depend on that (a cache keyed on the previous secret would show here)
+		prev := gen.Pick(t, "previous-call", "none", "same-key", "same-key", "other-key")
+		other := gen.Pad32(new(big.Int).Add(new(big.Int).Mod(new(big.Int).Add(d, big.NewInt(12345)), sm2gen.NM2), big.NewInt(1)))
 		run := func(full bool) (tr ctrace.Trace) {
+			pk := d32
+			if prev == "other-key" {
+				pk = other
+			}
+			if prev != "none" {
+				switch entry {
+				case "SignHashed":
+					sm2.SignHashed(bytes.NewReader(gen.Pad32(big.NewInt(977))), pk, e)
+				case "GenerateKey":
+					sm2.GenerateKey(bytes.NewReader(pk))
+				case "DerivePublic":
+					sm2.DerivePublic(pk)
+				}
+			}
 			ctrace.Start(full)
 			defer func() { tr = ctrace.Stop() }()
 			switch entry {
@@ -469,9 +487,9 @@ func TestVerif_C08_EntryInternals(t *testing.T) {
 			vt.Fail(t, rec, "C08:entry:panic", "%s panicked: %v", entry, p)
 			return
 		}
-		desc := fmt.Sprintf("d=%x e=%x k=%x", d32, e, k)
+		desc := fmt.Sprintf("d=%x e=%x k=%x previous call: %s", d32, e, k, prev)
 		rf, ok := refs[group]
-		rec.Case(stats.Hash([]byte(entry), d32, e, k), ok, "group:"+group, "key:"+dcls, "nonce:"+kcls)
+		rec.Case(stats.Hash([]byte(entry+prev), d32, e, k), ok, "group:"+group, "key:"+dcls, "nonce:"+kcls, "previous-call:"+prev)
 		if !ok {
 			refs[group] = &ref{tr: tr, desc: desc, run: run}
 			return
